@@ -78,6 +78,41 @@ PROPS = {
         "assumptions": ["genomes have at least one gene and one output (Genesis documents an error otherwise)"],
         "expect_classes": {"genesis": ["disabled gene", "self-loop gene", "enabled module", "disabled module", "module reading and driving the same node"]},
     },
+    "C12": {
+        "run": "^TestC12",
+        "shards": 12,
+        "technique": "property-based testing (rapid): generated acyclic networks (all scalar activations, 0-3 bias nodes, skip links, outputs feeding hidden nodes) x input vectors x step counts; differential against an independent topological evaluator with a propagated rounding bound",
+        "level_text": "Generated-input search: each DAG is evaluated by the standard solver (forward steps, and recursive steps when a hidden node exists) and by three fresh fast solvers (forward, recursive, relax) and compared with the harness's own "
+                      "one-pass topological evaluation; the evidence counts the cases in which a bias link demonstrably matters.",
+        "level_note": "trusted: the topological evaluator and its rounding bound (global Lipschitz constants per activation); it shares only the activation function table with the solvers (C18 checks that table); cases whose bound exceeds 1e-7 or that evaluate step/sign at the jump are discarded and counted",
+        "rule": "G-net DAGs: 1-4 inputs, 0-3 bias, 0-8 hidden, 1-3 outputs, random topological order independent of ids, extra-link probability 0-0.6, weights in [-5,5] with occasional +-100; built from constructors or through Genesis; "
+                "non-trivial = a bias link moves an output by > 1e-6 and depth >= 2; distinct by (#in, #bias, #hidden, #out, #links, depth)",
+        "assumptions": ["every neuron is reachable from a sensor and each ordered pair carries at most one link (as in every feed-forward genome)", "relaxation is run with the smallest positive delta and a budget of #neurons+2 steps; only the value, not the relaxed flag, is asserted"],
+        "expect_classes": {"dag": ["bias link moves an output by more than 1e-6", "several bias nodes", "depth >= 3", "network expressed from a genome", "network built from constructors"]},
+    },
+    "C13": {
+        "run": "^TestC13",
+        "shards": 12,
+        "technique": "property-based testing (rapid): generated networks (cyclic with self-loops and parallel links, acyclic, modular) x generated operation histories x flush x operation sequences; lock-step differential against a freshly built instance with bit-equal outputs",
+        "level_text": "Generated-input search with a differential oracle: instance A runs a history of 0-10 operations, is flushed and then runs a sequence of 1-10 operations in lock step with a fresh instance B; after every step the reported flags / errors and the outputs (bit patterns) must agree. "
+                      "Both the standard network and the fast solver; plus repeated evaluation of one organism on the same inputs.",
+        "level_note": "trusted: that two instances built from the same specification are identical before any operation (same constructor calls); sensor vectors have a length the solver documents as valid",
+        "rule": "topologies: 2/3 cyclic G-net (link probability 0.05-0.6, self-loops, recurrent flags, parallel links), 1/6 DAG, 1/6 modular genome through Genesis; operations: load / activate(k) / forward(k) / recursive / depth-with-cap(k) for the network, load / forward(k) / recursive / relax(k, delta) for the fast solver; "
+                "non-trivial = the network has a cycle and the history contains an activation after a sensor load; distinct by (solver, #nodes, #links, history length, sequence length)",
+        "assumptions": ["bit equality of outputs (NaN equals NaN): both instances perform the same floating-point operations in the same order"],
+        "expect_classes": {"flush": ["network with cycles", "feed-forward network", "modular network", "fast solver", "standard solver", "history activates after a sensor load"], "organism": ["recurrent organism"]},
+    },
+    "C14": {
+        "run": "^TestC14",
+        "shards": 12,
+        "technique": "property-based testing (rapid): generated DAGs and cyclic graphs with hidden nodes; depth compared with a dynamic-programming longest path; cap relation on fresh instances; generated query sequences on one instance for idempotence",
+        "level_text": "Generated-input search: for acyclic graphs the reported depth is compared with an independent DP longest path; for cyclic graphs range and termination; for every cap 1..D+2 the capped result on a fresh instance; "
+                      "and sequences of up to 4 capped/uncapped queries on one instance, each of which must answer as a fresh network would.",
+        "level_note": "trusted: the DP longest-path model; termination is observed (a hang is reported by the driver as a timeout / crash with the case that was running), not proven; graphs have at most 12 neurons because the library enumerates simple paths",
+        "rule": "2/3 DAGs (1-8 hidden, orphans allowed), 1/3 cyclic graphs (1-6 hidden, self-loops, parallel links); caps 0-8; non-trivial = depth >= 3 and a capped query below the depth precedes the final query; distinct by (#nodes, #links, depth, acyclic, caps)",
+        "assumptions": ["non-modular networks with at least one hidden node (the statement's domain)"],
+        "expect_classes": {"depth": ["acyclic", "cyclic", "cap below the depth", "capped query hit the cap before the final query", "depth >= 3"]},
+    },
 }
 
 # properties that the technique can not decide (none): id -> reason
